@@ -179,6 +179,7 @@ impl TxnCoordinator {
 //@@ end
 
 //@@ fn file=fe2o3-amqp/src/transaction/coordinator.rs impl=`impl Drop for TxnCoordinator` name=drop
+//@@ shape loops=for
 //@@ subst `self.txn_ids.drain()` => `__drained` rule=R9
 //@@ entry
         let __drained = self.txn_ids.drain();       // the iterator expression of the `for`, hoisted (evaluated once, before the first iteration, as in the source)
